@@ -452,7 +452,7 @@ def run_case(desc):
             run_dag(v, desc, scratch, keys)
         else:
             run_map(v, desc, scratch, keys)
-    return v.result(keys=keys, sample={"desc": desc, "rewrites_applied": v.counters.get("rewrites_applied", 0)} if desc["start"] % 96 == 0 else None)
+    return v.result(evaluations=v.counters.get("values_compared", 0), keys=keys, sample={"desc": desc, "rewrites_applied": v.counters.get("rewrites_applied", 0)} if desc["start"] % 96 == 0 else None)
 
 
 def finalize(agg, tier, seed):
